@@ -181,6 +181,13 @@ fn check_tuple(a: [u32; 4], n: usize, want_sample: bool) -> CaseResult {
     if v != from_arr || from_arr != Version::from(z) {
         return Err(Failure::new("array-zero-fill", format!("parse({s:?}) = {v}, from(array[..{n}]) = {from_arr}, zero-filled = {}", canon(z)), case));
     }
+    // printing *always* yields the canonical form: whatever width / fill / sign / zero flags the caller's format spec
+    // carries, what is printed (padding aside) is the canonical text, never per-component formatting
+    for printed in [format!("{v:12}"), format!("{v:<3}"), format!("{v:03}"), format!("{v:+}"), format!("{v:>40?}"), format!("{v:#?}")] {
+        if printed.trim() != canon(z) {
+            return Err(Failure::new("print-under-format-spec", format!("{:?} printed under a format spec as {printed:?}, canonical form is {:?}", &a[..n], canon(z)), json!({"components": &a[..n]})));
+        }
+    }
     if v.to_string() != canon(z) || format!("{v:?}") != canon(z) {
         return Err(Failure::new("print-canonical", format!("{s:?} prints as {v} / {v:?}, expected {}", canon(z)), case));
     }
@@ -326,6 +333,7 @@ pub fn run(mut run: Run) -> i32 {
     run.finish(
         RULE,
         1000,
-        &["Rust's u32::from_str accepts a leading '+': such parts are excluded as ambiguous", "serde_json used as the JSON codec"],
+        &[
+            "printing under a format spec: padding (whatever the fill) may surround the text, the text itself is the canonical form; Debug prints like Display","Rust's u32::from_str accepts a leading '+': such parts are excluded as ambiguous", "serde_json used as the JSON codec"],
     )
 }
